@@ -235,6 +235,7 @@ pub fn c04_req(ctx: &mut Ctx, log: &mut Log, im: &mut Impl, or: &mut Oracle) {
     let mut rng = ctx.rng.fork();
     let thorough = ctx.tier_thorough || ctx.widen;
     for ci in 0..ctx.n(160, 3000) {
+        if or.saturated() { or.count("stopped_early_saturated"); break; }
         let mc = 1 + rng.usize_below(100_000);
         let b = *rng.pick(&[64usize, 128, 256, 8192]);
         // optionally: a first request aborted during Params, then the real one
@@ -310,6 +311,7 @@ pub fn mutate(rng: &mut Rng, wire: &mut Vec<u8>, recs: &[Rec]) -> &'static str {
 pub fn c03_req(ctx: &mut Ctx, log: &mut Log, im: &mut Impl, or: &mut Oracle) {
     let mut rng = ctx.rng.fork();
     for ci in 0..ctx.n(500, 12_000) {
+        if or.saturated() { or.count("stopped_early_saturated"); break; }
         let pre = Preamble { pairs: gen_pairs(&mut rng, false).into_iter().filter(|(n, v)| n.len() + v.len() <= 300).collect(), ..gen_preamble(&mut rng, false) };
         let mc = 1 + rng.usize_below(50);
         let nl = rng.below(6);
